@@ -22,12 +22,20 @@ META = {
                   "recorded and judged: compatibility (communicator, source, tag), exact status and bytes (CRC, untouched guard bytes), "
                   "truncation reporting, non-overtaking over every pair of messages of one sender, exactly-once delivery, normal end.",
     "level_note": "Hooks flavour only (SMPI's dlopen privatisation under ASan reports in the sanitizer's own sigaltstack "
-                  "interceptor). The order between messages of different senders is not judged (MPI leaves it open). With "
-                  "smpi/async-small-thresh > 0 programs come in two families: 'seg' (each phase keeps messages and buffers on one side "
-                  "of the threshold; must be clean) and 'mixed' (both sides; the two-mailbox design of SMPI is known to break ordering "
-                  "there, see known_findings.d/C28.json, and a deadlock hides the rest of that program).",
+                  "interceptor). The order between messages of different senders is not judged (MPI leaves it open). 4 of 9 threshold "
+                  "settings keep the default smpi/async-small-thresh=0 (one of them all defaults): every rule applies there and nothing "
+                  "about ordering is a known finding. With smpi/async-small-thresh > 0 programs come in two families: 'seg' (each phase "
+                  "keeps messages and buffers on one side of the threshold; must be clean) and 'mixed' (both sides; the two-mailbox "
+                  "design of SMPI breaks ordering there in four precisely keyed ways, see known_findings.d/C28.json; a deadlock hides "
+                  "the rest of that program, every other key is still a violation). Truncation must be reported through the return "
+                  "code as MPI-3.1 says (error class MPI_ERR_TRUNCATE for Recv/Wait/Waitany/Test/Testany/Sendrecv, MPI_ERR_IN_STATUS "
+                  "plus status.MPI_ERROR for Waitall/Testall/Waitsome/Testsome).",
     "rule": "case = one generated program x one threshold setting; non-trivial = a program whose run completed with >=1 wildcard "
             "receive or >=2 ordered message pairs observed, distinct by program content",
+    "assumptions": ["smpi/simulate-computation:no: measured CPU bursts are not injected, so that a run is a function of the program "
+                    "and the two thresholds only (deterministic known-finding lines, verdicts independent of the machine load)",
+                    "MPI-3.1 semantics for the return code of completion calls and for MPI_Testall (no request modified unless all "
+                    "are complete)"],
     "ready": False,
 }
 
@@ -38,7 +46,8 @@ CONFIGS = [(0, 65536, "plain"), (0, 1000, "plain"), (0, 0, "plain"), (0, 300, "p
 
 
 def directed():
-    """Minimal witnesses of the open known findings (re-found on every run) plus their clean counterparts."""
+    """Minimal witnesses of the open known findings (re-found on every run), their clean counterparts with the default
+    smpi/async-small-thresh=0, and the truncation/status cases of every completion call."""
     out = []
     a, d = 500, 2000
     w = [{"kind": "world"}]
@@ -54,31 +63,63 @@ def directed():
     out.append({"np": 2, "comms": w, "a": a, "d": d, "mode": "mixed", "phases": ["directed/truncate"], "ops": [
         [[6, 20000], [1, 0, 0, 1, 1, 600, 2021, -1], [7]],
         [[2, 0, 0, 0, 1, 100, -1], [7]]]})
-    # two-mailbox defect seen by a probe with MPI_ANY_TAG
-    out.append({"np": 2, "comms": w, "a": a, "d": d, "mode": "mixed", "phases": ["directed/probe"], "ops": [
-        [[1, 3, 0, 1, 1, 600, 2031, 0], [1, 3, 0, 1, 2, 10, 2032, 1], [5, 2, 2, 0, 1], [7]],
-        [[6, 20000], [4, 0, 0, 0, -1], [2, 0, 0, -2, -2, -2, -1], [2, 0, 0, 0, -1, 700, -1], [7]]]})
-    # the same four with async-small-thresh = 0 must be clean
+    # F-B': a valid program without any truncation: Irecv(cap 100), Irecv(cap 700) <- Send(8 B), Send(600 B): deadlock
+    out.append({"np": 2, "comms": w, "a": a, "d": d, "mode": "mixed", "phases": ["directed/deadlock"], "ops": [
+        [[6, 20000], [1, 0, 0, 1, 1, 8, 2061, -1], [1, 0, 0, 1, 1, 600, 2062, -1], [7]],
+        [[2, 1, 0, 0, 1, 100, 0], [2, 1, 0, 0, 1, 700, 1], [5, 2, 2, 0, 1], [7]]]})
+    # two-mailbox defect seen by a probe with MPI_ANY_TAG (Probe, then an Iprobe loop)
+    for pk in (0, 1):
+        out.append({"np": 2, "comms": w, "a": a, "d": d, "mode": "mixed", "phases": ["directed/probe"], "ops": [
+            [[1, 3, 0, 1, 1, 600, 2031 + 2 * pk, 0], [1, 3, 0, 1, 2, 10, 2032 + 2 * pk, 1], [5, 2, 2, 0, 1], [7]],
+            [[6, 20000], [4, pk, 0, 0, -1], [2, 0, 0, -2, -2, -2, -1], [2, 0, 0, 0, -1, 700, -1], [7]]]})
+    # the same with async-small-thresh = 0 (the default) must be clean, whatever the detached threshold
     for c in list(out):
-        c2 = json.loads(json.dumps(c))
-        c2["a"], c2["mode"] = 0, "plain"
-        out.append(c2)
-    # truncation completed by MPI_Test / MPI_Waitany: status says MPI_ERR_TRUNCATE, the call returns MPI_SUCCESS
-    for api in (4, 3):
+        for dd in (2000, 65536, 0):
+            c2 = json.loads(json.dumps(c))
+            c2["a"], c2["d"], c2["mode"] = 0, dd, "plain"
+            out.append(c2)
+    # same-tag pairs across the threshold are kept in order by the per-(src,dst,tag) message ids: must be clean with async > 0
+    out.append({"np": 2, "comms": w, "a": a, "d": d, "mode": "seg", "phases": ["directed/sametag"], "ops": [
+        [[1, 3, 0, 1, 1, 600, 2071, 0], [1, 3, 0, 1, 1, 10, 2072, 1], [1, 3, 0, 1, 1, 499, 2073, 2], [1, 3, 0, 1, 1, 500, 2074, 3],
+         [5, 2, 4, 0, 1, 2, 3], [7]],
+        [[6, 20000], [2, 0, 0, 0, 1, 700, -1], [4, 0, 0, 0, 1], [2, 0, 0, -2, -2, -2, -1], [2, 0, 0, 0, 1, 700, -1],
+         [2, 0, 0, 0, 1, 700, -1], [7]]]})
+    # truncation (8 bytes into a 4-byte buffer) completed by every completion call, Recv and Sendrecv: Recv/Wait/Waitall report
+    # it through the return code, the others only in status.MPI_ERROR (open finding, one key per call)
+    for api in (1, 2, 3, 4, 5, 6, 7, 8):
         out.append({"np": 2, "comms": w, "a": 0, "d": 65536, "mode": "plain", "phases": ["directed/trunc-rc"], "ops": [
-            [[1, 0, 0, 1, 1, 8, 2041, -1], [7]],
+            [[1, 0, 0, 1, 1, 8, 2040 + api, -1], [7]],
             [[2, 1, 0, 0, 1, 4, 0], [5, api, 1, 0], [7]]]})
+    out.append({"np": 2, "comms": w, "a": 0, "d": 65536, "mode": "plain", "phases": ["directed/trunc-rc"], "ops": [
+        [[1, 0, 0, 1, 1, 8, 2049, -1], [7]],
+        [[2, 0, 0, 0, 1, 4, -1], [7]]]})
+    out.append({"np": 2, "comms": w, "a": 0, "d": 65536, "mode": "plain", "phases": ["directed/trunc-rc"], "ops": [
+        [[3, 0, 1, 1, 8, 2050, 1, 2, 8], [7]],
+        [[3, 0, 0, 2, 3, 2059, 0, 1, 4], [7]]]})
+    # two truncated and one fitting receive in one multiple-completion call: MPI_ERR_IN_STATUS + per-request status
+    for api in (2, 5, 7, 8):
+        out.append({"np": 2, "comms": w, "a": 0, "d": 65536, "mode": "plain", "phases": ["directed/trunc-multi"], "ops": [
+            [[1, 0, 0, 1, 1, 8, 2081, -1], [1, 0, 0, 1, 2, 8, 2082, -1], [1, 0, 0, 1, 3, 300, 2083, -1], [7]],
+            [[2, 1, 0, 0, 1, 4, 0], [2, 1, 0, 0, 2, 8, 1], [2, 1, 0, 0, 3, 0, 2], [6, 20000], [5, api, 3, 0, 1, 2], [7]]]})
     # MPI_Testall polled until completion loses the status of the request that finished during an earlier call
     out.append({"np": 2, "comms": w, "a": 0, "d": 65536, "mode": "plain", "phases": ["directed/testall"], "ops": [
         [[1, 0, 0, 1, 1, 8, 2051, -1], [6, 20000], [1, 0, 0, 1, 2, 8, 2052, -1], [7]],
         [[2, 1, 0, 0, 1, 8, 0], [2, 1, 0, 0, 2, 8, 1], [5, 5, 2, 0, 1], [7]]]})
+    # the same through the other polling calls keeps every status
+    for api in (4, 6, 8, 3, 7):
+        out.append({"np": 2, "comms": w, "a": 0, "d": 65536, "mode": "plain", "phases": ["directed/poll"], "ops": [
+            [[1, 0, 0, 1, 1, 8, 2091, -1], [6, 20000], [1, 0, 0, 1, 2, 8, 2092, -1], [7]],
+            [[2, 1, 0, -1, -1, 8, 0], [2, 1, 0, -1, -1, 8, 1], [5, api, 2, 1, 0], [7]]]})
     return out
 
 
 def run_case(ctx, exe, tmp, case, name):
     path = os.path.join(tmp, name + ".case")
     G.write_case(case, path)
-    cfg = ["--cfg=smpi/async-small-thresh:%d" % case["a"], "--cfg=smpi/send-is-detached-thresh:%d" % case["d"]]
+    # simulate-computation:no = the CPU bursts measured between two MPI calls (they grow on a loaded machine) are not injected in
+    # the simulated time: the schedule, hence the matching, only depends on the program (its delays are explicit usleep ops)
+    cfg = ["--cfg=smpi/async-small-thresh:%d" % case["a"], "--cfg=smpi/send-is-detached-thresh:%d" % case["d"],
+           "--cfg=smpi/simulate-computation:no"]
     res = mpi.smpirun(exe, case["np"], [path], timeout=150, cfg=cfg)
     os.unlink(path)
     return res
@@ -104,11 +145,13 @@ def judge(ctx, case, res, witness):
         ctx.count(k, stats[k])
     ctx.count("order_pairs_matching_both", stats.get("order_pairs_matching", 0))
     ctx.count("runs." + cfg)
+    if (case["a"], case["d"]) == (0, 65536):
+        ctx.count("runs.default-thresholds")
     return stats
 
 
 def run(ctx):
-    n = ctx.size(180, 6000)
+    n = ctx.size(140, 6000)
     exe = build.smpicc("mpi/p2p.c", "hooks")
     tmp = tempfile.mkdtemp(prefix="verif-C28-")
     try:
